@@ -222,3 +222,55 @@ func VerifC13Sliced() {
 	}
 	zz.Reach("C13/sliced/done")
 }
+
+// verifC13Fractional: the documented meaning of sweeper.retention_days ("a float, so it is
+// possible to use periods shorter than one day") with a concrete setting from a table that
+// includes fractional values; the real float32 arithmetic of RetentionDuration() is executed.
+// The expected retention is computed independently in integers (days = num/8); float32 leaves
+// a relative error below 2^-21, which is the only slack. One marker of arbitrary age.
+func verifC13Fractional(native bool) {
+	env := zz.NewEnv()
+	lg := logrus.New()
+	lg.SetLevel(logrus.PanicLevel)
+	now := zz.NondetI64("now0")
+	zz.Assume(zz.And(now >= 1500000000000000000, now < 1<<62))
+	if zz.Symbolic() {
+		zz.SetClock(now)
+	} else {
+		now = zz.ClockRead()
+	}
+	eighths := []int64{4, 12, 2, 16, 62, 2960, 1} // 0.5, 1.5, 0.25, 2, 7.75, 370, 0.125 days
+	num := eighths[zz.Shard(len(eighths))]
+	conf := config.Sweeper{Enabled: true, RetentionDays: float32(num) / 8, LockDuration: 50 * time.Millisecond, ReleaseDuration: time.Millisecond}
+	exact := num * int64(3*time.Hour)
+	tol := exact >> 21
+	sw := New("db", conf, env, lg, native)
+	swept := "d"
+	if !native {
+		swept = "_sync_shadow_d"
+	}
+	age := zz.NondetI64("e.age")
+	zz.Assume(zz.And(age >= 0, age <= now))
+	stored := vStored(uint64(now-age), 1, 0, nil)
+	err := env.Update(func(txn *lmdb.Txn) error {
+		dbi, err := txn.OpenDBI(swept, lmdb.Create)
+		if err != nil {
+			return err
+		}
+		return txn.Put(dbi, []byte("a"), stored, 0)
+	})
+	if err != nil {
+		zz.Assert(false, "harness/setup")
+		return
+	}
+	serr := sw.sweep(context.Background())
+	zz.Assert(serr == nil, "C13/fractional/no-error")
+	after, _ := zz.Dump(env, swept)
+	present := len(after) == 1
+	zz.Assert(zz.Implies(age < exact-tol, present), "C13/fractional/younger-marker-kept")
+	zz.Assert(zz.Implies(age > exact+tol, !present), "C13/fractional/expired-marker-removed")
+	zz.Reach("C13/fractional/done")
+}
+
+func VerifC13FractionalNative() { verifC13Fractional(true) }
+func VerifC13FractionalShadow() { verifC13Fractional(false) }
